@@ -418,7 +418,7 @@ const registryOwnerDoc = "SubscriptionManager.subscribers is owned by the handle
 func (c *Ctx) registryOwner() {
 	sm := func(f string) *types.Var { return c.field("blockntfns", "SubscriptionManager", f) }
 	smM := func(m string) *types.Func { return c.method("blockntfns", "SubscriptionManager", m) }
-	c.whoMay("access to SubscriptionManager.subscribers", accessOf(sm("subscribers")), []string{fnHandleNew, fnHandleCan, fnNotifyAll, "blockntfns.NewSubscriptionManager", fnSMStop}, 5)
+	c.whoMay("access to SubscriptionManager.subscribers", accessOf(sm("subscribers")), []string{fnSubHandler, fnHandleNew, fnHandleCan, fnNotifyAll, "blockntfns.NewSubscriptionManager", fnSMStop}, 5)
 	// (helpers folded into the handler no longer have calls to restrict)
 	helpers := c.methodsOpt("blockntfns", "SubscriptionManager", "handleNewSubscription", "handleCancelSubscription", "notifySubscribers")
 	if len(helpers) > 0 {
